@@ -43,6 +43,7 @@ func newSc(a *App, mon *Mon, name string, seed int64, p types.Params, mid, poor 
 	if modsvc != "" {
 		r.InstallModuleService(modsvc)
 	}
+	r.SetViaApp(seed%2 == 0 || len(name)%2 == 0)
 	r.Begin()
 	return &Sc{r: r, A: act, p: p}
 }
